@@ -240,6 +240,7 @@ struct Session {
     ids: Vec<String>,      // ids of the MathML returned by the last successful set_mathml, in document order
     old_ids: Vec<String>,  // ids of the one before
     last_routed: String,   // the id answered by the last successful get_navigation_node_from_braille_position (${ROUTED})
+    last_body: String,     // the children of <math> in the MathML the last successful set_mathml returned (${LASTBODY})
 }
 
 fn copy_dir(from: &Path, to: &Path) -> std::io::Result<()> {
@@ -280,6 +281,7 @@ impl Session {
             ids: Vec::new(),
             old_ids: Vec::new(),
             last_routed: String::new(),
+            last_body: String::new(),
         }
     }
 
@@ -291,6 +293,9 @@ impl Session {
 
     fn subst(&self, s: &str) -> String {
         let mut out = s.replace("$RULES", &self.rules);
+        if out.contains("${LASTBODY}") {
+            out = out.replace("${LASTBODY}", &self.last_body);
+        }
         if out.contains("${ROUTED}") {
             out = out.replace("${ROUTED}", if self.last_routed.is_empty() { "no-routed-id" } else { &self.last_routed });
         }
@@ -398,6 +403,11 @@ impl Session {
                         rest = &tail[j..];
                     }
                     self.old_ids = std::mem::replace(&mut self.ids, ids);
+                    // what an application that edits the expression would send back: the returned elements, ids and all
+                    self.last_body = match (out.find("<math").and_then(|i| out[i..].find('>').map(|j| i + j + 1)), out.rfind("</math>")) {
+                        (Some(a), Some(b)) if a <= b => out[a..b].to_string(),
+                        _ => String::new(),
+                    };
                 }
                 res_of(r, Value::String)
             }
